@@ -155,7 +155,15 @@ func (fa *funcAn) recordAccess(st lstate, in ssa.Instruction) {
 		if op, _, _, ok := fa.syncOp(x); ok && op != "" {
 			return
 		}
-		for _, a := range cc.Args {
+		for ai, a := range cc.Args {
+			// the receiver of a method of a struct that carries its own mutex (a limiter, a gate embedded by value): the
+			// method's accesses are those of the inner struct's fields, judged against the inner mutex — not a write of
+			// the field that holds the struct
+			if ai == 0 && !cc.IsInvoke() {
+				if sc := cc.StaticCallee(); sc != nil && sc.Signature.Recv() != nil && selfGuardedStruct(an.Deref(a.Type())) {
+					continue
+				}
+			}
 			if f, b, ok := fa.addrOfField(a); ok {
 				fa.access(st, f, b, true, x)
 			}
@@ -419,4 +427,22 @@ func calleeNameOf(cc *ssa.CallCommon) string {
 		return sc.Name()
 	}
 	return ""
+}
+
+// selfGuardedStruct: a named struct type with a sync.Mutex / sync.RWMutex field of its own.
+func selfGuardedStruct(t types.Type) bool {
+	n, ok := t.(*types.Named)
+	if !ok {
+		return false
+	}
+	st, ok := n.Underlying().(*types.Struct)
+	if !ok {
+		return false
+	}
+	for i := 0; i < st.NumFields(); i++ {
+		if fn, isN := st.Field(i).Type().(*types.Named); isN && fn.Obj().Pkg() != nil && fn.Obj().Pkg().Path() == "sync" && (fn.Obj().Name() == "Mutex" || fn.Obj().Name() == "RWMutex") {
+			return true
+		}
+	}
+	return false
 }
